@@ -220,7 +220,8 @@ class CfgGen:
         if k == 'neg':
             return ('dec', r.choice(['-', '+']) + str(1 + r.below(50)))
         if k == 'hex':
-            return ('hex', r.choice(['0x1F', '0xff', '$A', '0x0', '0x10', '$7f']))
+            # also values at and beyond the ends of the 32-bit ranges: hexadecimal numbers are read as 64-bit values
+            return ('hex', r.choice(['0x1F', '0xff', '$A', '0x0', '0x10', '$7f', '0x7FFFFFFF', '0x80000000', '0xFFFFFFFF', '$FFFFFFFF', '0x100000000', '$ABCDEF0123']))
         if k == 'str':
             return ('str', '"' + r.choice(['test', '', 'a b', 'with ""quotes""', "it's", 'x;y', '{ }', 'class A']) + '"')
         if k == 'sq':
